@@ -42,6 +42,12 @@ CLAIMED.update({
   note="Partial and structural: the ghost bits are per command, not per key, so a multi-key command that bumps one key and mutates another in place is not distinguished; getIds/hasChangedUnlocked/isAbortedExecUnlocked consistency and the EXEC-aborts-iff lemma are not yet under contract. Dictionary primitives and getStoreKey are trusted contracts.",
   design="DESIGN.md §6 C10"),
 })
+CLAIMED.update({
+ "C09": dict(
+  text="Deductive proof of the MULTI/EXEC state machine on the real handlers: MULTI opens an empty queue or (nested) fails leaving it untouched; DISCARD/UNWATCH/EXEC-without-MULTI behave as stated; EXEC on every path (no MULTI, a command rejected while queueing, a watched key changed, normal) leaves the connection in normal mode with an empty watch table and a cleared failure flag, releases the exclusive store lock, holds it across the whole replay loop, dispatches exactly one handler per queued command in queue order (ghost dispatch counter + loop invariant) and dispatches nothing when queueing had failed. Two defects (aborted EXEC stays in MULTI; rejected command does not abort) were found and repaired.",
+  note="prepare()'s queueing branch and the per-command QUEUED reply are not yet under contract (the function drags in the whole argument parser); 'no other client interleaves' rests on the exclusive-lock obligations here plus C08's lock discipline; dispatchHandler's claim that handlers leave cmdQueueFailed alone is a stated (free) assumption.",
+  design="DESIGN.md §6 C09"),
+})
 NOT_BUILT = {}
 ALL = ["C%02d" % i for i in range(1, 21)]
 
